@@ -13,9 +13,20 @@ use iggy::error::IggyError;
 use std::path::Path;
 use std::sync::atomic::Ordering;
 use std::sync::Arc;
+#[cfg(not(kani))]
 use tokio::fs;
+#[cfg(kani)]
+use iggy::verif_model::shim::fs;
+#[cfg(kani)]
+use iggy::verif_model::shim as tokio;
+#[cfg(not(kani))]
 use tokio::fs::create_dir_all;
+#[cfg(kani)]
+use iggy::verif_model::fs::create_dir_all;
+#[cfg(not(kani))]
 use tokio::io::AsyncReadExt;
+#[cfg(kani)]
+use iggy::verif_model::fs::io_model::AsyncReadExt;
 use tracing::{error, info, trace, warn};
 
 #[derive(Debug)]
